@@ -146,7 +146,10 @@ impl Prop for SetClear {
                 8 => (0, 999_999, (f.subsec / 1_000) as i64),
                 _ => (0, 999_999_999, f.subsec as i64),
             };
-            let v = match u.below(10)? {
+            let v = match u.below(12)? {
+                // a candidate in relation to the value the field has now (the same year +- a few:
+                // a leap day may or may not lie between; the UTC reading's field)
+                10 | 11 => cur + u.range_i64(-8, 8)?,
                 0 => min,
                 1 => min + 1,
                 2 => max - 1,
